@@ -32,7 +32,13 @@ impl<'b, T: Write + 'b> Session<'b, T> {
         input: Input,
         is_macro_def: bool,
     ) -> Result<FormatReport, ErrorKind> {
+        #[cfg(rustfmt_verif)]
+        let _verif_depth = crate::verif::DepthGuard::enter();
+        #[cfg(rustfmt_verif)]
+        crate::verif::ev_input_start(&input.file_name(), &self.config, &self.errors);
         if !self.config.version_meets_requirement() {
+            #[cfg(rustfmt_verif)]
+            crate::verif::ev("VersionMismatch");
             return Err(ErrorKind::VersionMismatch);
         }
 
@@ -50,6 +56,8 @@ impl<'b, T: Write + 'b> Session<'b, T> {
 
             format_result.map(|report| {
                 self.errors.add(&report.internal.borrow().1);
+                #[cfg(rustfmt_verif)]
+                crate::verif::ev_input_end(&report.internal.borrow().1, &self.errors);
                 report
             })
         })
@@ -66,14 +74,20 @@ fn should_skip_module<T: FormatHandler>(
     module: &Module<'_>,
 ) -> bool {
     if contains_skip(module.attrs()) {
+        #[cfg(rustfmt_verif)]
+        crate::verif::ev_path("Filtered", path, "skip");
         return true;
     }
 
     if config.skip_children() && path != main_file {
+        #[cfg(rustfmt_verif)]
+        crate::verif::ev_path("Filtered", path, "skip_children");
         return true;
     }
 
     if !input_is_stdin && context.ignore_file(path) {
+        #[cfg(rustfmt_verif)]
+        crate::verif::ev_path("Filtered", path, "ignore");
         return true;
     }
 
@@ -84,6 +98,8 @@ fn should_skip_module<T: FormatHandler>(
         let src = source_file.src.as_ref().expect("SourceFile without src");
 
         if is_generated_file(src, config) {
+            #[cfg(rustfmt_verif)]
+            crate::verif::ev_path("Filtered", path, "generated");
             return true;
         }
     }
@@ -123,6 +139,8 @@ fn format_project<T: FormatHandler>(
         Ok(krate) => krate,
         // Surface parse error via Session (errors are merged there from report)
         Err(e) => {
+            #[cfg(rustfmt_verif)]
+            crate::verif::ev_ok("ParseRoot", false);
             let forbid_verbose = input_is_stdin || e != ParserError::ParsePanicError;
             should_emit_verbose(forbid_verbose, config, || {
                 eprintln!("The Rust parser panicked");
@@ -132,6 +150,8 @@ fn format_project<T: FormatHandler>(
         }
     };
 
+    #[cfg(rustfmt_verif)]
+    crate::verif::ev_ok("ParseRoot", true);
     let mut context = FormatContext::new(&krate, report, psess, config, handler);
     let files = modules::ModResolver::new(
         &context.psess,
@@ -208,6 +228,8 @@ impl<'a, T: FormatHandler + 'a> FormatContext<'a, T> {
         module: &Module<'_>,
         is_macro_def: bool,
     ) -> Result<(), ErrorKind> {
+        #[cfg(rustfmt_verif)]
+        crate::verif::ev_path("FormatFile", &path, "");
         let snippet_provider = self.psess.snippet_provider(module.span);
         let mut visitor = FmtVisitor::from_psess(
             &self.psess,
@@ -488,6 +510,26 @@ fn format_lines(
     }
 
     report.append(name.clone(), formatter.errors);
+}
+
+#[cfg(rustfmt_verif)]
+pub(crate) fn verif_format_lines(
+    text: &mut String,
+    name: &FileName,
+    skipped_range: &[(usize, usize)],
+    config: &Config,
+    report: &FormatReport,
+) {
+    format_lines(text, name, skipped_range, config, report)
+}
+
+#[cfg(rustfmt_verif)]
+pub(crate) fn verif_apply_newline_style(
+    newline_style: crate::NewlineStyle,
+    formatted_text: &mut String,
+    raw_input_text: &str,
+) {
+    apply_newline_style(newline_style, formatted_text, raw_input_text)
 }
 
 struct FormatLines<'a> {
